@@ -60,7 +60,7 @@ def model_line(c, K, cvs):
         nd = len(M["vars"])
         p = ["META", str(nd)]
         for v in M["vars"]:
-            p += [hx(v["sigma"]), hx(v["w"]), hx(v["lower"]), hx(v["upper"]), str(v["nx"])]
+            p += [hx(v["sigma"]), hx(v["w"]), hx(v["lower"]), hx(v["upper"]), str(v["nx"]), "1" if v.get("expand") else "0"]
         p += [hx(M["W"]), hx(M["hw"]), str(M["freq"]), str(M["gfreq"]), "1" if M["use_grids"] else "0",
               "1" if M["keep"] else "0", "1" if M["wt"] else "0", hx(M["bt"]), hx(0.001987191)]
         p += [str(c["it0"]), str(T), str(K)]
